@@ -68,7 +68,7 @@ theorem Ext.setPart (b : Book) (p' p : Part) (hp : b.getPart p'.idx = some p) (h
   refine ⟨rfl, ?_, ?_, ?_, fun _ _ => ⟨rfl, rfl⟩⟩
   · intro hq
     refine ⟨?_, hq.q⟩
-    apply SInv.setPart hq.s p' p hp
+    apply BkSInv.setPart hq.s p' p hp
     · intro j _
       refine ⟨fun hj => ?_, fun _ => trivial⟩
       rw [hn, hj]
@@ -94,7 +94,7 @@ theorem Ext.setPart (b : Book) (p' p : Part) (hp : b.getPart p'.idx = some p) (h
 theorem Ext.status (b : Book) (st : Nat) : Ext b { b with status := st } := by
   refine ⟨rfl, ?_, fun _ p' h => Or.inl ⟨p', h, rfl, rfl⟩, fun _ p h => ⟨p, h, rfl⟩, fun _ _ => ⟨rfl, rfl⟩⟩
   intro hq
-  exact ⟨SInv.of_stores hq.s rfl rfl rfl rfl rfl rfl hq.s.sQ, hq.q⟩
+  exact ⟨BkSInv.of_stores hq.s rfl rfl rfl rfl rfl rfl hq.s.sQ, hq.q⟩
 
 theorem getBook_setBook_self (s : State) (b : Book) : getBook (setBook s b) b.uid = some b :=
   lookup_upsert_self Book.key b s.books
@@ -108,7 +108,7 @@ theorem mem_getBook {s : State} (hs : Sorted Book.key s.books) {b : Book} (h : b
 /-- no backing part names an index that is not a participation of the book -/
 theorem ObInv.stake_zero {s : State} (h : ObInv s) (b : Book) (hb : b ∈ s.books) (i : Nat) (hi : b.getPart i = none) :
     sumBy (betStakeAt b.uid i) s.bets = 0 := by
-  apply sumBy_zero
+  apply sumBy_zeroQ
   intro t ht
   unfold betStakeAt
   split
@@ -117,7 +117,7 @@ theorem ObInv.stake_zero {s : State} (h : ObInv s) (b : Book) (hb : b ∈ s.book
     obtain ⟨bk, hbk, hfl⟩ := h.wf t ht
     rw [hm, mem_getBook h.sB hb] at hbk
     cases hbk
-    apply sumBy_zero
+    apply sumBy_zeroQ
     intro fl hflm
     obtain ⟨p, hp, _⟩ := hfl fl hflm
     unfold fbAt
@@ -188,7 +188,7 @@ theorem ObInv.setBet {s s' : State} (h : ObInv s) (t t' : Bet) (hl : lookup Bet.
     (hk : s'.books = s.books) (ht : s'.bets = upsert Bet.key t' s.bets) (hc : s'.betCount = s.betCount)
     (hmk : s'.markets = s.markets) : ObInv s' := by
   have hg : ∀ u, getBook s' u = getBook s u := fun u => getBook_congr hk u
-  have htm := (lookup_mem hl).1
+  have htm := (lookup_memQ hl).1
   have hsum : ∀ g : Bet → Int, g t' = g t → sumBy g s'.bets = sumBy g s.bets := by
     intro g hg'
     rw [ht, sumBy_upsert Bet.key g t' s.bets h.sT, hl]
@@ -273,22 +273,22 @@ theorem setAll_length_new {α : Type} (key : α → List Nat) : ∀ (l store : L
 /-- the book created by MsgAdd satisfies the queue invariant -/
 theorem newBook_QInv (uid : Nat) (odds : List Nat) (hd : allDistinct odds = true) : QInv (newBook uid odds) := by
   have hnd := (allDistinct_iff_nodup odds).mp hd
-  have hq : (newBook uid odds).queues = setAll qkey (odds.map fun o => (o, ([] : List Nat))) [] := rfl
-  have hpw : (odds.map fun o => (o, ([] : List Nat))).Pairwise (fun a b => (qkey a == qkey b) = false) := by
+  have hq : (newBook uid odds).queues = setAll qkeyQ (odds.map fun o => (o, ([] : List Nat))) [] := rfl
+  have hpw : (odds.map fun o => (o, ([] : List Nat))).Pairwise (fun a b => (qkeyQ a == qkeyQ b) = false) := by
     rw [List.pairwise_map]
     refine List.Pairwise.imp ?_ hnd
     intro a b hab
-    simpa [qkey] using hab
-  have hsorted : Sorted qkey (newBook uid odds).queues := by
-    rw [hq]; exact setAll_sortedRes qkey _ [] (by simp [Sorted])
+    simpa [qkeyQ] using hab
+  have hsorted : Sorted qkeyQ (newBook uid odds).queues := by
+    rw [hq]; exact setAll_sortedRes qkeyQ _ [] (by simp [Sorted])
   have hmem : ∀ z, z ∈ (newBook uid odds).queues → z.2 = [] := by
     intro z hz
-    rw [hq, mem_setAll qkey _ [] (by simp [Sorted]) hpw (by intro a _ b hb; cases hb) z] at hz
+    rw [hq, mem_setAll qkeyQ _ [] (by simp [Sorted]) hpw (by intro a _ b hb; cases hb) z] at hz
     rcases hz with hz | hz
     · obtain ⟨o, _, rfl⟩ := List.mem_map.mp hz; rfl
     · cases hz
   have hlen : (newBook uid odds).queues.length = odds.length := by
-    rw [hq, setAll_length_new qkey _ [] (by simp [Sorted]) hpw (by intro a _ b hb; cases hb)]
+    rw [hq, setAll_length_new qkeyQ _ [] (by simp [Sorted]) hpw (by intro a _ b hb; cases hb)]
     simp
   constructor
   · refine ⟨by show Sorted Part.key []; simp [Sorted], by show Sorted PExp.key []; simp [Sorted],
@@ -347,7 +347,7 @@ theorem ObInv.addBook {s : State} (h : ObInv s) (nb : Book) (hn : getBook s nb.u
     rcases hmem x hx with rfl | e
     · rw [(htot o i).1]
       symm
-      apply sumBy_zero
+      apply sumBy_zeroQ
       intro t ht
       unfold betProfitAt
       have : (t.market == x.uid) = false := by simpa using hnobet t ht
@@ -358,7 +358,7 @@ theorem ObInv.addBook {s : State} (h : ObInv s) (nb : Book) (hn : getBook s nb.u
     rcases hmem x hx with rfl | e
     · rw [(htot o i).2]
       symm
-      apply sumBy_zero
+      apply sumBy_zeroQ
       intro t ht
       unfold betStakeOAt
       have : (t.market == x.uid) = false := by simpa using hnobet t ht
@@ -375,8 +375,8 @@ theorem mem_setMarket {s : State} {m x : Market} (h : x ∈ (setMarket s m).mark
   · exact Or.inr e.1
   · exact Or.inr e.1
 
-theorem getMarket_mem {s : State} {u : Nat} {m : Market} (h : getMarket s u = some m) : m ∈ s.markets :=
-  (lookup_mem h).1
+theorem getMarket_memQ {s : State} {u : Nat} {m : Market} (h : getMarket s u = some m) : m ∈ s.markets :=
+  (lookup_memQ h).1
 
 theorem marketAddO_obInv {s s' : State} {c : Nat} {tk : Tk} {u st en : Nat} {o : List Nat} {stt : Nat}
     (hI : ObInv s) (h : marketAddO s c tk u st en o stt = some s') : ObInv s' := by
@@ -400,7 +400,7 @@ theorem marketUpdateO_obInv {s s' : State} {tk : Tk} {u st en stt : Nat}
   apply hI.of_eq (by rfl) (by rfl) (by rfl)
   intro x hx
   rcases mem_setMarket hx with rfl | hx
-  · exact hI.mkt m (getMarket_mem hm)
+  · exact hI.mkt m (getMarket_memQ hm)
   · exact hI.mkt x hx
 
 theorem marketResolveO_obInv {s s' : State} {tk : Tk} {u ts stt : Nat} {w : List Nat}
@@ -411,7 +411,7 @@ theorem marketResolveO_obInv {s s' : State} {tk : Tk} {u ts stt : Nat} {w : List
   apply hI.of_eq (by rfl) (by rfl) (by rfl)
   intro x hx
   rcases mem_setMarket hx with rfl | hx
-  · exact hI.mkt m (getMarket_mem hm)
+  · exact hI.mkt m (getMarket_memQ hm)
   · exact hI.mkt x hx
 
 end Sge.Core
@@ -665,7 +665,7 @@ theorem wagerO_obInv {s s' : State} {c : Nat} {tk : Tk} {u : Nat} {a : Int} {pl 
   obtain ⟨bal1, _, rfl⟩ := bankSend_shape hs1
   obtain ⟨bal2, _, rfl⟩ := bankSend_shape hs2
   obtain ⟨hbm, hbu⟩ := getBook_mem hb
-  have hmo : m.odds.Nodup := (allDistinct_iff_nodup m.odds).mp (hI.mkt m (getMarket_mem hm))
+  have hmo : m.odds.Nodup := (allDistinct_iff_nodup m.odds).mp (hI.mkt m (getMarket_memQ hm))
   have hq := hI.qinv b hbm
   obtain ⟨w1, w2, w3, w4, w5, w6, w7⟩ := processWager_sums b b' pl.odds (s.betCount + 1) ov pl.mult m.odds pl.allOdds _ _ _ fulfs taken hq hmo hr
   have hkeep : ∀ i p0, b.getPart i = some p0 → ∃ p', b'.getPart i = some p' ∧ p'.addr = p0.addr := by
@@ -739,7 +739,7 @@ theorem settleBet_obInv {s s' : State} {c u : Nat} (hI : ObInv s) (h : settleBet
   unfold settleBet at h
   simp only [bind, Option.bind_eq_some_iff] at h
   obtain ⟨bet0, _, bet, hbet, _, _, m, _, h⟩ := h
-  have hkey : Bet.key bet = [c, bet0.id] := (lookup_mem hbet).2
+  have hkey : Bet.key bet = [c, bet0.id] := (lookup_memQ hbet).2
   have hl : lookup Bet.key (Bet.key bet) s.bets = some bet := by rw [hkey]; exact hbet
   split at h
   · unfold settleRefund at h
